@@ -16,6 +16,8 @@ import (
 // *before* it is executed (ops only) and rewritten afterwards.  A panic in a
 // goroutine of the server kills the whole process; the last line of the file
 // is then the case that was running, which is what tools/check.py blames.
+var vC12Progress func()
+
 func vC12Run(t *testing.T, gen func(e *vEnv, r *vRand) []vCase, exec func(t *testing.T, c *vCase)) {
 	e := verifEnv(t)
 	var cases []vCase
@@ -54,16 +56,19 @@ func vC12Run(t *testing.T, gen func(e *vEnv, r *vRand) []vCase, exec func(t *tes
 		if err != nil {
 			t.Fatal(err)
 		}
-		if err := out.Truncate(off); err != nil {
+		// the line only ever grows: overwrite first, then cut what may be left of a longer previous version
+		if _, err := out.WriteAt(append(data, '\n'), off); err != nil {
 			t.Fatal(err)
 		}
-		if _, err := out.WriteAt(append(data, '\n'), off); err != nil {
+		if err := out.Truncate(off + int64(len(data)) + 1); err != nil {
 			t.Fatal(err)
 		}
 	}
 	for i := range cases {
 		c := &cases[i]
 		put(c) // provisional: ops without observations
+		// … rewritten after every op, so that the op during which the process died is the first one without an observation
+		vC12Progress = func() { put(c) }
 		func() {
 			defer func() {
 				if r := recover(); r != nil {
